@@ -1782,7 +1782,10 @@ func concE2E(seed uint64, iters int, path string) *sink {
 			}
 			w.Count("cancelled-fetches")
 		}
-		// the same through the real gRPC client: read k documents, then cancel
+		w.checkpoint()
+	}
+	// the same through the real gRPC client (proxy -> store): read k documents, then cancel
+	for _, k := range []int{0, 1, 3, 9} {
 		ctx, cancel := context.WithCancel(context.Background())
 		if st, err := c.env.Ingestor().SearchIngestor.Documents(ctx, search.FetchRequest{IDs: allIDs,
 			FieldsFilter: search.FetchFieldsFilter{Fields: append([]string{}, cfields...), AllowList: callow}}); err == nil {
